@@ -17,6 +17,14 @@ def main():
     real = asmshim.load_asm_pristine()
     out = []
     for j in jobs:
+        if 'program' in j:
+            labels, consts = {}, dict(j.get('constants') or {})
+            try:
+                o = asmshim.load_asm_pristine().assemble(j['program'], constants=consts, labels=labels, compress=bool(j.get('compress')))
+                out.append(['ok', hashlib.sha1(bytes(o)).hexdigest(), list(labels.items()), sorted((k, v) for k, v in consts.items())])
+            except Exception as e:
+                out.append(['exc', type(e).__name__, str(getattr(e, 'message', e))[:80]])
+            continue
         tree = include.TREES[j['tree']]
         r = include._real_tree(real, tree, j['exists'], j['cwd'], j['idirs'], j['K'])
         if r[0] == 'ok':
